@@ -95,6 +95,11 @@ def export_table(fn):
             if base in alias and isinstance(t.slice, ast.Tuple) and len(t.slice.elts) == 2 and isinstance(t.slice.elts[1], ast.Constant):
                 col = t.slice.elts[1].value
                 core, sc = _scale(n.value)
+                mw = Q.match("np.where($c, $x, $d)", core)
+                if mw is not None:
+                    # conditional export: the parameter is written only where the condition holds
+                    core, sc2 = _scale(mw["x"])
+                    sc = (sc or sc2) + "|only where " + src(mw["c"])
                 if isinstance(core, ast.Call) and dotted(core.func) == "to_busid" and core.args:
                     core = core.args[0]
                 d = dotted(core) or ""
@@ -130,6 +135,10 @@ def rule_mpc(ctx, repo, models):
         back = it.get((sec, col), {})
         # the same parameter must be read back from that column with the inverse scale (PV/Slack share the gen table)
         key = (model, param)
+        if "|only where " in (sc or ""):
+            ctx.violation("C13.mpc-inverse", c, "the export writes %s.%s %s (else a constant), the import reads the column unconditionally: "
+                          "devices for which the condition is false come back with another value" % (model, param, sc.split("|", 1)[1]), exp.W(node))
+            continue
         if key not in back:
             others = sorted("%s.%s" % k for k in back)
             if param in ("idx",) or (sec == "bus" and col == 0):
@@ -512,7 +521,7 @@ def rule_mpc_lexer(ctx, repo):
         if isinstance(c, ast.Call) and isinstance(c.func, ast.Attribute) and c.func.attr in ("search", "match", "fullmatch") and \
                 isinstance(c.func.value, ast.Name) and c.func.value.id in pats:
             closes = any(isinstance(x, ast.Assign) and dotted(x.targets[0]) == "field" and isinstance(x.value, ast.Constant) and x.value.value is None
-                         for x in t.body)
+                         for b_ in t.body for x in ast.walk(b_))
             if not closes:
                 continue
             n += 1
@@ -520,7 +529,7 @@ def rule_mpc_lexer(ctx, repo):
             hit = [w for w in witnesses if getattr(rx, c.func.attr)(w)]
             parses = any(isinstance(x, ast.Call) and isinstance(x.func, ast.Attribute) and x.func.attr in ("append", "extend") for b in t.body for x in ast.walk(b))
             splits = any("split(']')" in src(b) or 'split("]")' in src(b) for b in t.body)
-            drops = any(isinstance(x, ast.Continue) for x in t.body)
+            drops = any(isinstance(x, ast.Continue) for b_ in t.body for x in ast.walk(b_))
             ok = not hit or parses or splits or not drops
             ctx.check(ok, "C13.mpc-lexer", "m2mpc/section-end", "the section-end pattern %r does not swallow a data row" % pats[c.func.value.id],
                       "the pattern %r (.%s) also recognises `%s` -- a data row with the closing bracket on the same line -- and the branch drops the "
